@@ -517,7 +517,7 @@ def uf_args(args):
                 sig.append('s')
                 sorts.append(IntSeq)
                 terms.append(sv.seq_term())
-        elif isinstance(a, (int, SInt, SBool)):
+        elif isinstance(a, (int, SInt, SBool, z3.ArithRef)):
             sig.append('i')
             sorts.append(z3.IntSort())
             terms.append(int_term(a))
@@ -1213,6 +1213,35 @@ def m_ord(ip, args, kwargs):
     return ord(v)
 
 
+def m_forall(ip, args, kwargs):
+    """api.forall(lo, hi, pred) -> quantified formula"""
+    lo, hi, pred = args
+    ctx = ip.ctx
+    if isinstance(lo, int) and isinstance(hi, int) and hi - lo <= 64:
+        conj = []
+        for j in range(lo, hi):
+            t = truth_term(ctx, ip.call(pred, [j]))
+            if t is False:
+                return False
+            if t is not True:
+                conj.append(t)
+        return wrap_bool(z3.And(*conj)) if conj else True
+    j = z3.Int(ctx.fresh_name('j!bound'))
+    ctx.no_fork += 1
+    try:
+        body = truth_term(ctx, ip.call(pred, [SInt(j)]))
+    finally:
+        ctx.no_fork -= 1
+    if isinstance(body, bool):
+        body = z3.BoolVal(body)
+    ctx.quantified = True
+    return SBool(z3.ForAll([j], z3.Implies(z3.And(int_term(lo) <= j, j < int_term(hi)), body)))
+
+
+def sarray_getitem(ip, arr, idx):
+    return wrap_int(z3.Select(arr.t, int_term(idx)))
+
+
 def install_default_models(reg):
     reg.bounds = getattr(reg, 'bounds', {})
     M = reg.models
@@ -1238,6 +1267,28 @@ def install_default_models(reg):
     M[int.from_bytes] = int_from_bytes
     M[int.to_bytes] = lambda ip, a, k: int_to_bytes(ip, *a, **k)
     M[hex] = m_hex
+    from . import api as _api
+    M[_api.forall] = m_forall
+
+    def m_store(ip, args, kwargs):
+        from .loops import SArray
+        arr, i, v = args
+        if isinstance(arr, dict):
+            if is_concrete([i, v]):
+                return _api.store(arr, i, v)
+            base = z3.K(z3.IntSort(), z3.IntVal(-1))
+            for k_, v_ in arr.items():
+                base = z3.Store(base, k_, v_)
+            arr = SArray(base)
+        return SArray(z3.Store(arr.t, int_term(i), int_term(v)))
+    M[_api.store] = m_store
+
+    def m_empty_map(ip, args, kwargs):
+        from .loops import SArray
+        return SArray(z3.K(z3.IntSort(), z3.IntVal(-1)))
+    M[_api.empty_map] = m_empty_map
+    from .loops import SArray
+    reg.sym_getitem[SArray] = sarray_getitem
     M[print] = lambda ip, a, k: None
     import io
     M[io.BytesIO] = m_bytesio
